@@ -15,3 +15,13 @@ PROPS['C15'] = dict(
     unreached=[],
     explanation='',
 )
+
+PROPS['C12'] = dict(
+    level='proof',
+    contracts=['base_clock'],
+    drivers=[],
+    assumptions=[FLOATS],
+    trusted_base=[],
+    unreached=[],
+    explanation='',
+)
